@@ -12,6 +12,7 @@ import AcVerif.Engine.Gates
 import AcVerif.Engine.Replace
 import AcVerif.Engine.Stream
 import AcVerif.Packed.Model
+import AcVerif.Pre.Builder
 /-!
 # Line-protocol driver: the model's answer to each request
 -/
@@ -231,6 +232,46 @@ def answerGate (r : Req) (c : Cfg) : String :=
         | some e => e.name
   | _, _, _ => "bad-request:gate"
 
+/-- decision constants from the request (Tie C), defaults = pinned tree -/
+def constsOf (r : Req) : Consts :=
+  let d : Consts := {}
+  { patternLimit := r.natD "K_PATTERN_LIMIT" d.patternLimit
+    teddyPatternLimit := r.natD "K_TEDDY_PATTERN_LIMIT" d.teddyPatternLimit
+    teddyMask1Limit := r.natD "K_TEDDY_MASK1_LIMIT" d.teddyMask1Limit
+    teddyBeefy := r.natD "K_TEDDY_BEEFY" d.teddyBeefy
+    prePackedPatlen := r.natD "K_PREFILTER_PACKED_PATLEN" d.prePackedPatlen
+    preRankSlack := r.natD "K_PREFILTER_RANK_SLACK" d.preRankSlack
+    bufferDefaultCap := r.natD "K_DEFAULT_BUFFER_CAPACITY_KB" 64 * 1024
+    bufferMinFactor := r.natD "K_BUFFER_MIN_FACTOR" d.bufferMinFactor
+    autoDfaLimit := r.natD "K_AUTO_DFA_LIMIT" d.autoDfaLimit }
+
+/-- the prefilter of the searcher described by the request, if the request
+carries the frequency table (`freq=`) -/
+def prefilterOf (r : Req) : Option (Option PreChoice) := do
+  let freqBytes ← r.bytes? "freq"
+  let pats ← r.list? "pats"
+  let k ← MatchKind.parse (r.getD "mk" "std")
+  let freq := fun (b : UInt8) => (freqBytes.getD b.toNat 0).toNat
+  pure (buildPrefilter (constsOf r) k (r.flag "fold") freq pats
+    (r.getD "avx2" "1" == "1") (r.getD "ssse3" "1" == "1"))
+
+def fmtCand : Cand → String
+  | .none => "cnone"
+  | .mtch m => s!"cmatch:{fmtMat m}"
+  | .pos i => s!"cpos:{i}"
+
+/-- `pre`: which prefilter the searcher carries and its candidate for a span -/
+def answerPre (r : Req) (c : Cfg) : String :=
+  if c.isTop then "n/a"
+  else if !c.pf then "nopre"
+  else match prefilterOf r, r.bytes? "hay" with
+    | some none, _ => "nopre"
+    | some (some ch), some hay =>
+      let s := r.natD "s" 0
+      let e := r.natD "e" hay.length
+      s!"{ch.name} {fmtCand (ch.findIn hay s e)}"
+    | _, _ => "bad-request:pre"
+
 /-- `packed … pcfg=v1;v2`: one answer per packed configuration -/
 def answerPacked (r : Req) (variant : String) : String :=
   match r.list? "pats", r.bytes? "hay" with
@@ -240,12 +281,12 @@ def answerPacked (r : Req) (variant : String) : String :=
     let ssse3 := r.getD "ssse3" "1" == "1"
     let patlimit := !(r.flag "nolimits")
     let s? : Option (Option PackedSearcher) := match variant with
-      | "default" => some (packedBuild kind pats none none none patlimit avx2 ssse3)
-      | "rk" => some (packedBuild kind pats (some false) none none patlimit avx2 ssse3)
-      | "teddy" => some (packedBuild kind pats (some true) none none patlimit avx2 ssse3)
-      | "slim128" => some (packedBuild kind pats (some true) (some false) (some false) patlimit avx2 ssse3)
-      | "slim256" => some (packedBuild kind pats (some true) (some true) (some false) patlimit avx2 ssse3)
-      | "fat" => some (packedBuild kind pats (some true) (some true) (some true) patlimit avx2 ssse3)
+      | "default" => some (packedBuild (constsOf r) kind pats none none none patlimit avx2 ssse3)
+      | "rk" => some (packedBuild (constsOf r) kind pats (some false) none none patlimit avx2 ssse3)
+      | "teddy" => some (packedBuild (constsOf r) kind pats (some true) none none patlimit avx2 ssse3)
+      | "slim128" => some (packedBuild (constsOf r) kind pats (some true) (some false) (some false) patlimit avx2 ssse3)
+      | "slim256" => some (packedBuild (constsOf r) kind pats (some true) (some true) (some false) patlimit avx2 ssse3)
+      | "fat" => some (packedBuild (constsOf r) kind pats (some true) (some true) (some true) patlimit avx2 ssse3)
       | _ => none
     match s? with
     | none => "bad-request:variant"
@@ -432,6 +473,7 @@ def respond (lineNo : Nat) (line : String) : List String :=
     | "certl1" => [s!"{lineNo} - {answerCert r}"]
     | "certpair" => [s!"{lineNo} - {answerCertPair r}"]
     | "packed" => ((r.getD "pcfg" "default").splitOn ";").map fun v => s!"{lineNo} {v} {answerPacked r v}"
+    | "pre" => (cfgsOf r).map fun c => s!"{lineNo} {c.name} {answerPre r c}"
     | "gate" => (cfgsOf r).map fun c => s!"{lineNo} {c.name} {answerGate r c}"
     | _ => (cfgsOf r).map fun c => s!"{lineNo} {c.name} {answer r c}"
 
